@@ -37,6 +37,37 @@ pub enum HOp {
     Set(usize, u8),
     Append(u8),
     Delete(usize),
+    /// deletion relative to the leaf count at that point of the history: count-1, count, count+1
+    DeleteNearCount(i8),
+}
+
+/// positions made concrete by walking the history (the leaf count after single writes, appends and
+/// deletions follows from the operations alone)
+fn concrete(ops: &[HOp]) -> Vec<HOp> {
+    let mut mark = 0usize;
+    let mut out = vec![];
+    for o in ops {
+        match o {
+            HOp::Set(i, v) => {
+                if *i < CAP {
+                    mark = mark.max(*i + 1);
+                }
+                out.push(HOp::Set(*i, *v));
+            }
+            HOp::Append(v) => {
+                if mark < CAP {
+                    mark += 1;
+                }
+                out.push(HOp::Append(*v));
+            }
+            HOp::Delete(i) => out.push(HOp::Delete(*i)),
+            HOp::DeleteNearCount(d) => {
+                let i = (mark as i64 + (*d as i64).clamp(-1, 1)).clamp(0, CAP as i64) as usize;
+                out.push(HOp::Delete(i));
+            }
+        }
+    }
+    out
 }
 
 #[derive(Clone, Debug, Serialize, Deserialize)]
@@ -59,13 +90,13 @@ fn probe_bin(cfg: &str) -> PathBuf {
 }
 
 fn workload_json(c: &Case) -> serde_json::Value {
-    let ops: Vec<serde_json::Value> = c
-        .ops
+    let ops: Vec<serde_json::Value> = concrete(&c.ops)
         .iter()
         .map(|o| match o {
             HOp::Set(i, v) => serde_json::json!({"k": "set", "i": i, "v": hex(&fr_to_le32(&super::trees::pool_value(*v)))}),
             HOp::Append(v) => serde_json::json!({"k": "append", "v": hex(&fr_to_le32(&super::trees::pool_value(*v)))}),
             HOp::Delete(i) => serde_json::json!({"k": "delete", "i": i}),
+            HOp::DeleteNearCount(_) => unreachable!(),
         })
         .collect();
     let reqs: Vec<serde_json::Value> = c
@@ -127,7 +158,8 @@ fn check_case(ctx: &Ctx, case: &Case, o: &mut Outcome) -> Result<(), String> {
     // ---------------- model ----------------------------------------------------------------------
     let mut m = TreeModel::new(DEPTH, Fr::from(0u64));
     let mut want_op: Vec<(bool, BigUint)> = vec![];
-    for op in &case.ops {
+    let cops = concrete(&case.ops);
+    for op in &cops {
         let ok = match op {
             HOp::Set(i, v) => m.set(*i, super::trees::pool_value(*v)) == crate::models::tree_model::Verdict::Applied,
             HOp::Append(v) => m.update_next(super::trees::pool_value(*v)) == crate::models::tree_model::Verdict::Applied,
@@ -137,6 +169,7 @@ fn check_case(ctx: &Ctx, case: &Case, o: &mut Outcome) -> Result<(), String> {
                 // deleting at or beyond the mark changes nothing; Ok or Err are both fine
                 inside
             }
+            HOp::DeleteNearCount(_) => unreachable!(),
         };
         want_op.push((ok, fr_to_big(&m.root())));
     }
@@ -161,12 +194,12 @@ fn check_case(ctx: &Ctx, case: &Case, o: &mut Outcome) -> Result<(), String> {
             let (want_ok, want_root) = &want_op[k];
             let root = BigUint::from_bytes_le(&unhex(f[3]));
             if &root != want_root {
-                return Err(format!("configuration {cfg}: root after step {k} ({:?}) = {root}, ideal tree = {want_root}", case.ops[k]));
+                return Err(format!("configuration {cfg}: root after step {k} ({:?}) = {root}, ideal tree = {want_root}", cops[k]));
             }
             // deleting at or beyond the high-water mark changes nothing; Ok and Err are both fine (as in C06)
-            let deleting_outside = matches!(case.ops[k], HOp::Delete(_) if !*want_ok);
+            let deleting_outside = matches!(cops[k], HOp::Delete(_) if !*want_ok);
             if (f[2] == "ok") != *want_ok && !deleting_outside {
-                return Err(format!("configuration {cfg}: step {k} ({:?}) reported {}, expected {}", case.ops[k], f[2], if *want_ok { "ok" } else { "err" }));
+                return Err(format!("configuration {cfg}: step {k} ({:?}) reported {}, expected {}", cops[k], f[2], if *want_ok { "ok" } else { "err" }));
             }
             o.evals += 1;
         }
@@ -304,7 +337,7 @@ impl Property for C17 {
         "C17"
     }
     fn rule(&self) -> String {
-        "five builds of one probe program (default/persistent tree, fullmerkletree, no-default/optimal tree, arkzkey, stateless), compiled from /repo's working tree by ./check. Generated workload: history of up to 40 single-leaf writes, appends and deletions at depth 20 (positions incl. 0, the right half, capacity-1, the mark; values incl. the default leaf), probe positions, 1-3 proving requests from C01's generator. \
+        "five builds of one probe program (default/persistent tree, fullmerkletree, no-default/optimal tree, arkzkey, stateless), compiled from /repo's working tree by ./check. Generated workload: history of up to 40 single-leaf writes, appends and deletions at depth 20 (positions incl. 0, the right half, capacity-1, and deletions at leaf count-1 / leaf count / leaf count+1; values incl. the default leaf), probe positions, 1-3 proving requests from C01's generator. \
          Compared: root after every step, leaf count, leaves and membership paths at the probe positions, roots after registering the provers' leaves, exported witnesses — across the four stateful builds and against the ideal tree model; public values of every message against the RLN formulas; digests of proving key / verifying key / constraint matrices across all five builds, and element-by-element equality of the two key files parsed inside the arkzkey build; every message of every producer (incl. the stateless prover fed with the exported witnesses) verified by every build: raw, against the build's own tree (stateful), against the producer's root, with negative controls (wrong root, altered proof byte, altered signal). \
          evaluations = compared observations; non-trivial = every case (each contains messages verified by a build other than their producer; the count is in counters.cross_configuration_verifications); distinct by case content".into()
     }
@@ -312,7 +345,7 @@ impl Property for C17 {
         vec!["the probe is compiled against /repo by ./check before the run; a configuration whose zerokit sources do not compile is reported as a violation (the error locations are inside /repo), a probe that does not compile for other reasons as inconclusive".into()]
     }
     fn plan(&self, tier: Tier) -> Plan {
-        Plan { shards: 1, cases_per_shard: tier.pick(6, 120), max_shrink_iters: 6, watchdog_s: tier.pick(1500, 14400) }
+        Plan { shards: 1, cases_per_shard: tier.pick(8, 120), max_shrink_iters: 6, watchdog_s: tier.pick(1500, 14400) }
     }
     fn selftest(&self, _ctx: &Ctx) -> Result<(), String> {
         let miss = missing_probes();
@@ -338,12 +371,15 @@ impl Property for C17 {
             5 => (pos.clone(), 0u8..6).prop_map(|(i, v)| HOp::Set(i, v)),
             4 => (0u8..6).prop_map(HOp::Append),
             3 => pos.clone().prop_map(HOp::Delete),
+            2 => (-1i8..=1).prop_map(HOp::DeleteNearCount),
         ];
         let nreq = tier.pick(2usize, 3usize);
         (proptest::collection::vec(op, 0..40), proptest::collection::vec(pos, 1..6), proptest::collection::vec(pipeline::req_strategy(300), 1..=nreq))
             .prop_map(|(mut ops, mut probes, mut reqs)| {
                 // deletions of positions written earlier make the history non-trivial: aim half of them
                 let written: Vec<usize> = ops.iter().filter_map(|o| if let HOp::Set(i, _) = o { Some(*i) } else { None }).collect();
+                // the positions appended to matter as probes too
+                probes.push(written.iter().copied().filter(|i| *i < CAP).map(|i| i + 1).max().unwrap_or(0).min(CAP - 1));
                 let mut w = written.iter().cycle();
                 for (k, o) in ops.iter_mut().enumerate() {
                     if let HOp::Delete(i) = o {
@@ -371,7 +407,7 @@ impl Property for C17 {
         let mut o = Outcome::new();
         o.nontrivial = true;
         o.label(format!("history-length/{}", case.ops.len() / 10 * 10));
-        if case.ops.iter().any(|x| matches!(x, HOp::Delete(_))) {
+        if case.ops.iter().any(|x| matches!(x, HOp::Delete(_) | HOp::DeleteNearCount(_))) {
             o.label("history-with-deletion");
         }
         if case.reqs.iter().any(|r| r.index >= 1 << 19) {
